@@ -45,7 +45,7 @@ class Prop(core.Prop):
         th = tier == 'thorough'
         return {'t': [1, 2, 3] + ([4, 5] if th else []), 'z': [1, 2],
                 'x': [1, 2, 3, 4],
-                'kinds': [['A', 'M', 'B', 'X', 'Zx', 'S'], ['A', 'M', 'B', 'Zx', 'S', 'M0', 'Ch']] +
+                'kinds': [['A', 'M', 'B', 'X', 'Zx', 'S'], ['A', 'M', 'B', 'Zx', 'S', 'M0', 'Ch', 'Mn', 'Sw']] +
                          ([['A', 'M', 'B', 'X', 'Zx', 'S', 'Ch', 'M0']] if th else []),
                 'forms': ['method', 'stack_files', 'pncmfopen', 'method-disk'],
                 'multi': 'ordered pairs and triples%s of offset copies with lengths 1..%d along the stack dimension'
@@ -210,6 +210,15 @@ class Prop(core.Prop):
         self._open = []
         d = case['dim']
         form = case['form']
+        disk_forms = ('pncmfopen', 'method-disk')
+        if form in disk_forms or case.get('first_form') in disk_forms:
+            # classic netCDF files cannot hold multi-character strings, nor a valid cell equal to the fill
+            # value (it reads back as missing): those variables stay in memory only
+            case = dict(case)
+            if 'file' in case:
+                case['file'] = dict(case['file'], kinds=[k for k in case['file']['kinds'] if k not in ('Sw', 'Mn')])
+            if 'kinds' in case:
+                case['kinds'] = [k for k in case['kinds'] if k not in ('Sw', 'Mn')]
         vs = []
         if case['kind'] == 'split':
             real = lib.to_real(rfile.ufile(case['file']))
